@@ -116,7 +116,7 @@ var props = map[string]propCfg{
 	"C15": {
 		level: "fault_enumeration",
 		rule:  "each run: a history of 2-8 operations over <=3 machine ids - captain create (two spec versions, with or without state), replace state, replace spec, delete, re-create, interleaved with routed/unrouted messages that move the recorder machines; after every ProcessMsg the fold of Result.Changed is compared with the live crew (node, bindings, spec source modulo compilation, deleted machines absent); then for every message boundary a twin crew is booted from the JSON of the shadow store and must produce equal states and emission batches for the rest of the history; distinct = distinct operation-kind sequences",
-		parts: []part{{name: "", engine: "sio", race: false, quick: 6000, thorough: 100000}, {name: "sio-loop", engine: "sio", race: true, quick: 800, thorough: 20000}},
+		parts: []part{{name: "", engine: "sio", race: false, quick: 6000, thorough: 100000}, {name: "sio-loop", engine: "sio", race: true, quick: 800, thorough: 20000}, {name: "unencodable", engine: "sio", race: false, quick: 3000, thorough: 50000}},
 		comps: []string{"real: sio.Crew (ProcessMsg, captain machine, SetMachine/DeleteMachine, GetChanged), core.Walk, ecmascript interpreter", "reference: shadow store folded exactly as sio/stdio.go folds Result.Changed; boot path as sio/siostd/main.go", "injected: crash/restart at every message boundary (JSON round trip of the store), order of machines (map-order seam)"},
 	},
 	"C16": {
